@@ -26,6 +26,8 @@ import (
 	metav1 "k8s.io/apimachinery/pkg/apis/meta/v1"
 	"k8s.io/apimachinery/pkg/runtime"
 	"k8s.io/apimachinery/pkg/runtime/schema"
+	"k8s.io/apimachinery/pkg/runtime/serializer"
+	k8stesting "k8s.io/client-go/testing"
 	"sigs.k8s.io/controller-runtime/pkg/client"
 	"sigs.k8s.io/controller-runtime/pkg/client/interceptor"
 
@@ -65,12 +67,12 @@ func (c *Check) Rule() string {
 }
 func (c *Check) Assumptions() []string {
 	return []string{
-		"the store is controller-runtime's fake client (status subresources and the field indexes that the real SetupWithManager registers); an empty merge patch is answered like an API server does (current object returned, nothing written, no resourceVersion bump) and counted separately as noop_patch_requests",
+		"the store is controller-runtime's fake client (status subresources and the field indexes that the real SetupWithManager registers) behind a layer that makes it behave like the manager's client: objects read carry their GroupVersionKind, List order is unspecified, and an update/patch request that leaves the stored object unchanged is a no-op request (counted as noop_write_requests, not as a mutating call); the fake bumps resourceVersion on every request, so 'identical' means identical except metadata.resourceVersion",
 		"a pod's request is the sum over spec.containers (generated pods have no init containers or overhead); 'scheduled Pending' means condition PodScheduled=True",
 		"allocated fractional pods carry received-resource-type=Fraction as the binder writes it; a reconcile that returns an error (gpu-memory pod on a node without a GPU-memory label) is only required not to write",
 		"DRA: single-request ExactCount claims; a device class counts as GPU when its name contains 'gpu'",
 		"queue graphs are forests (no parent cycles, that is C10's subject); annotation values are well-formed (malformed ones are C19's subject)",
-		"operator: external Prometheus URLs are not generated (network); certificate/key bytes and the CA bundles derived from them are excluded from the cross-store comparison",
+		"operator: external Prometheus URLs are not generated (network) and Prometheus enablement is not changed within a case (disabling starts a wall-clock graceful deprecation); certificate/key bytes and the CA bundles derived from them are excluded from the cross-store comparison; pre-existing CRDs (environment, not owned by the operator) are excluded from the A-then-B versus fresh-B comparison only",
 	}
 }
 func (c *Check) CaseTimeout() time.Duration { return 120 * time.Second }
@@ -401,6 +403,12 @@ func (c *calls) funcs() interceptor.Funcs {
 			return c.write(ctx, cl, "patch/"+sub, obj, func() error { return cl.SubResource(sub).Patch(ctx, obj, patch, opts...) })
 		},
 	}
+}
+
+// newTracker is a plain client-go object tracker (what internal/store uses); giving it to the fake client builder avoids
+// the field-managed tracker, whose construction walks the whole scheme (~0.1 s per client).
+func newTracker(s *runtime.Scheme) k8stesting.ObjectTracker {
+	return k8stesting.NewObjectTracker(s, serializer.NewCodecFactory(s).UniversalDecoder())
 }
 
 func mustJSON(v any) string {
